@@ -15,6 +15,7 @@ meaning leaves an unprovable goal and breaks this file.
 -/
 import Pybes3Verif.Proofs.HelixA
 import Pybes3Verif.Gen.HelixProps
+import Pybes3Verif.Props.HelixTie
 
 namespace Pybes3Verif.Helix
 open Real
@@ -99,5 +100,94 @@ theorem py_obj_eq_awk_fromPhysics (pos : Vec3 ℝ) (mom : ℝ × ℝ × ℝ) (q 
 /-- non-vacuity: the tie is about a real computation - a track at (3, 4, 5) seen from the origin has dz = 5 -/
 example : (Py.objFromPhysics R ⟨3, 4, 5⟩ (1, π / 2, 1) 1 ⟨0, 0, 0⟩).dz = 5 := by
   rw [py_obj_fromPhysics]; simp only [fromPhysics, R_sub]; norm_num
+
+/-! ### the closeness test (`_obj_isclose`, `_arr_isclose`, the three public `isclose` methods)
+
+Per track the array helper gives exactly the verdict of the single-track helper: both move the other helix to `self`'s pivot
+(`changePivotWiredObj` = `changePivotWiredArr`, `py_obj_eq_arr` of `Props/HelixTie.lean`), test the same five parameters and the
+pivot distance with the same `(a, b)` roles in `|a − b| ≤ atol + rtol·|b|`, and compare the (propagated) error matrices under the
+same condition "both helices carry one" (object helper: `_error_or_none(x) is not None`, array helper: `"error" in x.fields` -
+the same `Option` in the model; `record_error_presence` pins the object helper to the form that is safe for records).  No hypothesis is needed for the equality (not even κ ≠ 0: both sides contain the same
+terms).  Not modelled: NaN / `equal_nan` (no counterpart over `Ops`). -/
+
+/-- unfold both helpers, identify the moved helix (`py_obj_eq_arr`), drop the array helper's initial `true &&`; what is left
+(if anything: the two sources list the same tests in a different order) is closed by normalising `&&` up to associativity / commutativity (no idempotence: a test listed twice is not a test dropped) -/
+local macro "isclose_tie" : tactic => `(tactic|
+  (simp only [Py.objIsclosePyFull, Py.arrIsclosePyFull, py_obj_eq_arr, Bool.true_and] <;>
+    simp only [Bool.and_assoc, Bool.and_comm, Bool.and_left_comm]))
+
+/-- **array helper = object helper, per track**, error matrices (present or not) included -/
+theorem py_iscloseFull_obj_eq_arr (rtol atol : ℝ) (h : Params ℝ) (p : Vec3 ℝ) (E : Option (Nat → Nat → ℝ))
+    (h' : Params ℝ) (p' : Vec3 ℝ) (E' : Option (Nat → Nat → ℝ)) :
+    Py.objIsclosePyFull R rtol atol h p E h' p' E' = Py.arrIsclosePyFull R rtol atol h p E h' p' E' := by
+  isclose_tie
+
+/-- the same for helices without error matrices (the statement asked for; `h'.kappa ≠ 0` turned out not to be needed) -/
+theorem py_isclose_obj_eq_arr (rtol atol : ℝ) (h : Params ℝ) (p : Vec3 ℝ) (h' : Params ℝ) (p' : Vec3 ℝ) :
+    Py.objIsclosePy R rtol atol h p h' p' = Py.arrIsclosePy R rtol atol h p h' p' := by
+  simp only [Py.objIsclosePy, Py.arrIsclosePy, py_iscloseFull_obj_eq_arr]
+
+/-- `HelixObject.isclose`, `HelixAwkwardRecord.isclose` and `HelixAwkwardArray.isclose` declare the same defaults
+(`rtol = 1e-5`, `atol = 1e-8`, `equal_nan = False`) -/
+theorem isclose_defaults_agree :
+    Py.objIscloseDefaults = Py.recIscloseDefaults ∧ Py.recIscloseDefaults = Py.arrIscloseDefaults := by decide
+
+/-- the single-track helper (used for records too) finds out whether a helix carries an error matrix through `_error_or_none`
+(record: the `error` field iff it exists), not through the attribute `x.error`, which raises for a record without that field -
+the defect fixed by `/repo` commit f321876; a regression to the attribute form makes this `false = true` -/
+theorem record_error_presence : Py.objErrorPresenceViaField = true := by decide
+
+/-- whichever helper a public method delegates to, the per-track verdict is that of the array helper -/
+theorem iscloseVia_eq (k : Py.IscloseHelper) (rtol atol : ℝ) (h : Params ℝ) (p : Vec3 ℝ) (E : Option (Nat → Nat → ℝ))
+    (h' : Params ℝ) (p' : Vec3 ℝ) (E' : Option (Nat → Nat → ℝ)) :
+    Py.iscloseVia R k rtol atol h p E h' p' E' = Py.arrIsclosePyFull R rtol atol h p E h' p' E' := by
+  cases k <;> simp only [Py.iscloseVia, py_iscloseFull_obj_eq_arr]
+
+/-- the three public `isclose` methods (object; record, single- or multi-track; array) give the same verdict for a track -/
+theorem py_isclose_methods_agree (m₁ m₂ m₃ : Bool) (rtol atol : ℝ) (h : Params ℝ) (p : Vec3 ℝ) (E : Option (Nat → Nat → ℝ))
+    (h' : Params ℝ) (p' : Vec3 ℝ) (E' : Option (Nat → Nat → ℝ)) :
+    Py.iscloseVia R (Py.objIscloseHelper m₁) rtol atol h p E h' p' E' = Py.iscloseVia R (Py.recIscloseHelper m₂) rtol atol h p E h' p' E' ∧
+    Py.iscloseVia R (Py.recIscloseHelper m₂) rtol atol h p E h' p' E' = Py.iscloseVia R (Py.arrIscloseHelper m₃) rtol atol h p E h' p' E' := by
+  simp only [iscloseVia_eq, and_self]
+
+/-- `isclose(x, x)` holds for non-negative tolerances -/
+theorem iscloseScalar_self (rtol atol x : ℝ) (hr : 0 ≤ rtol) (ha : 0 ≤ atol) : Py.iscloseScalar R rtol atol x x = true := by
+  have hx : ¬ (atol + rtol * |x| < |x - x|) := by
+    rw [sub_self, abs_zero]
+    have := mul_nonneg hr (abs_nonneg x)
+    linarith
+  simp only [Py.iscloseScalar, R_lt, R_add, R_mul, R_abs, R_sub, decide_eq_false hx, Bool.not_false]
+
+/-- the distance of a pivot to itself is 0 -/
+theorem vecMag3_self (a b c : ℝ) : Py.vecMag3 R (realOps.sub a a) (realOps.sub b b) (realOps.sub c c) = 0 := by
+  simp only [Py.vecMag3, R_sub, R_add, R_mul, R_sqrt, sub_self, mul_zero, add_zero, Real.sqrt_zero]
+
+theorem ifBothErrors_none (b : Option (Nat → Nat → ℝ)) (f : (Nat → Nat → ℝ) → (Nat → Nat → ℝ) → Bool) (d : Bool) :
+    Py.ifBothErrors none b f d = d := by
+  cases b <;> rfl
+
+/-- **sanity**: a helix in normal form (`Valid`: κ ≠ 0, φ0 ∈ [0, 2π), reference point on the near side of the circle — the
+hypotheses of the identity move `cp_self` = `changePivot_self` of C11) is close to itself for any tolerances `0 ≤ rtol`, `0 ≤ atol`.
+(`0 ≤ atol` is what the pivot test `isclose(|p − p|, 0)` needs.) -/
+theorem isclose_refl (rtol atol : ℝ) (h : Params ℝ) (p : Vec3 ℝ) (hv : Valid h) (hr : 0 ≤ rtol) (ha : 0 ≤ atol) :
+    Py.objIsclosePy R rtol atol h p h p = true := by
+  obtain ⟨e1, e2, e3⟩ := py_obj_params h p p hv.kappa_ne
+  rw [cp_self h p hv] at e1 e2 e3
+  simp only [Py.objIsclosePy, Py.objIsclosePyFull, ifBothErrors_none, e1, e2, e3, vecMag3_self, R_zero,
+    iscloseScalar_self _ _ _ hr ha, Bool.and_self]
+
+/-- … and so says the array helper -/
+theorem isclose_refl_arr (rtol atol : ℝ) (h : Params ℝ) (p : Vec3 ℝ) (hv : Valid h) (hr : 0 ≤ rtol) (ha : 0 ≤ atol) :
+    Py.arrIsclosePy R rtol atol h p h p = true := by
+  rw [← py_isclose_obj_eq_arr]; exact isclose_refl rtol atol h p hv hr ha
+
+/-- the hypotheses are satisfiable (`exHelixPos` of `Proofs/HelixA.lean`), with numpy's default tolerances -/
+example : Py.objIsclosePy R (1 / 100000) (1 / 100000000) exHelixPos ⟨1, 2, 3⟩ exHelixPos ⟨1, 2, 3⟩ = true :=
+  isclose_refl _ _ _ _ exHelixPos_valid (by norm_num) (by norm_num)
+
+/-- the test is not vacuous: a helix whose `tanl` differs by 1 is not close at the default tolerances -/
+example : Py.iscloseScalar R (1 / 100000) (1 / 100000000) (2 : ℝ) 1 = false := by
+  have hx : (1 / 100000000 : ℝ) + 1 / 100000 * |(1 : ℝ)| < |(2 : ℝ) - 1| := by norm_num
+  simp only [Py.iscloseScalar, R_lt, R_add, R_mul, R_abs, R_sub, decide_eq_true hx, Bool.not_true]
 
 end Pybes3Verif.Helix
